@@ -42,6 +42,7 @@ type Env struct {
 	bindResW   varmq.IResultWorkerBinder[Payload, int]
 	quiescents int
 	preAccepted []Item
+	preRaw      []adItem
 }
 
 func (e *Env) log(ev Ev) int {
@@ -196,6 +197,12 @@ func (e *Env) setup() {
 	}
 	if len(cfg.PreItems) > 0 && len(cores) > 0 && cores[0] != nil {
 		e.preload(cores[0])
+	}
+	if len(e.preRaw) > 0 && len(cores) > 0 && cores[0] != nil {
+		for _, it := range e.preRaw {
+			cores[0].seq++
+			cores[0].pending = append(cores[0].pending, adItem{val: it.val, prio: it.prio, seq: cores[0].seq})
+		}
 	}
 	for i, k := range cfg.Queues {
 		e.qs = append(e.qs, e.bind(k, i, cores[i]))
